@@ -301,7 +301,7 @@ class Metadata(CbMixin, ProgMixin):
             target = self.piece_length
             if remainder:
                 start = current["length"] - remainder
-                if remainder < target:
+                if remainder <= target:
                     stop = -1
                     target -= remainder
                     remainder = 0
@@ -316,7 +316,7 @@ class Metadata(CbMixin, ProgMixin):
                 start = 0
                 current = self.files[file_index]
                 size = current["length"]
-                if size < target:
+                if size <= target:
                     stop = -1
                     target -= size
                     file_index += 1
